@@ -49,8 +49,9 @@ theorem fire_run (st : String) :
 theorem relAppT_state_ph (key : String) (i : CItem) (a : CApp) (hph : i.ph = true) :
     (relAppT .unknown key i a).state =
       if (isZero (some (prune (subX a.allocatedPh i.res))) &&
-          ((a.state == "Completing" && !a.stateTimer) || a.state == "Failing" || a.state == "Resuming" ||
-           (isZero (some a.pending) && isZero (some a.allocated)))) = true then
+          ((a.state == "Completing" && !a.stateTimer) || (a.state == "Failing" && isZero (some a.allocated)) ||
+           a.state == "Resuming" ||
+           (isZero (some a.pending) && isZero (some a.allocated) && a.state != "Failing"))) = true then
         (if (a.state == "Failing") = true then fireState a.state .fail
          else if (a.state == "Resuming") = true then fireState a.state .run else fireState a.state .complete)
       else a.state := by
@@ -60,7 +61,10 @@ theorem relAppT_state_ph (key : String) (i : CItem) (a : CApp) (hph : i.ph = tru
 
 theorem relAppT_state_real (key : String) (i : CItem) (a : CApp) (hph : i.ph = false) :
     (relAppT .unknown key i a).state =
-      if (isZero (some a.pending) && isZero (some (prune (subX a.allocated i.res)))) = true then fireState a.state .complete
+      if (isZero (some a.pending) && isZero (some (prune (subX a.allocated i.res)))) = true then
+        (if (a.state == "Failing") = true then
+           (if isZero (some a.allocatedPh) = true then fireState a.state .fail else a.state)
+         else fireState a.state .complete)
       else a.state := by
   unfold relAppT
   simp only [hph, Bool.false_eq_true, if_false, setState_state]
@@ -69,12 +73,15 @@ theorem relAppT_state_real (key : String) (i : CItem) (a : CApp) (hph : i.ph = f
 theorem relAppT_state_cases (key : String) (i : CItem) (a : CApp) :
     (relAppT .unknown key i a).state = a.state ∨
     (i.ph = true ∧ isZero (some (prune (subX a.allocatedPh i.res))) = true ∧
-      ((a.state = "Failing" ∧ (relAppT .unknown key i a).state = fireState a.state .fail) ∨
+      ((a.state = "Failing" ∧ isZero (some a.allocated) = true ∧
+          (relAppT .unknown key i a).state = fireState a.state .fail) ∨
        (a.state = "Resuming" ∧ (relAppT .unknown key i a).state = fireState a.state .run) ∨
        ((a.state = "Completing" ∨ (isZero (some a.pending) = true ∧ isZero (some a.allocated) = true)) ∧
           (relAppT .unknown key i a).state = fireState a.state .complete))) ∨
     (i.ph = false ∧ isZero (some a.pending) = true ∧ isZero (some (prune (subX a.allocated i.res))) = true ∧
-       (relAppT .unknown key i a).state = fireState a.state .complete) := by
+       ((a.state ≠ "Failing" ∧ (relAppT .unknown key i a).state = fireState a.state .complete) ∨
+        (a.state = "Failing" ∧ isZero (some a.allocatedPh) = true ∧
+          (relAppT .unknown key i a).state = fireState a.state .fail))) := by
   cases hph : i.ph with
   | true =>
     rw [relAppT_state_ph key i a hph]
@@ -85,23 +92,33 @@ theorem relAppT_state_cases (key : String) (i : CItem) (a : CApp) :
       right; left
       refine ⟨rfl, hz, ?_⟩
       by_cases hF : a.state = "Failing"
-      · left; exact ⟨hF, by simp [hF]⟩
+      · left
+        refine ⟨hF, ?_, by simp [hF]⟩
+        rcases hc with ((hc | hc) | hc) | hc
+        · rw [hF] at hc; exact absurd hc.1 (by decide)
+        · exact hc.2
+        · rw [hF] at hc; exact absurd hc (by decide)
+        · have := hc.2; simp [hF] at this
       · by_cases hR : a.state = "Resuming"
         · right; left; exact ⟨hR, by simp [hR]⟩
         · right; right
           refine ⟨?_, by simp [hF, hR]⟩
           rcases hc with ((hc | hc) | hc) | hc
           · exact Or.inl hc.1
-          · exact absurd hc hF
+          · exact absurd hc.1 hF
           · exact absurd hc hR
-          · exact Or.inr hc
+          · exact Or.inr hc.1
     · left; rfl
   | false =>
     rw [relAppT_state_real key i a hph]
     split
     · rename_i hc
       simp only [Bool.and_eq_true] at hc
-      right; right; exact ⟨rfl, hc.1, hc.2, rfl⟩
+      by_cases hF : a.state = "Failing"
+      · by_cases hzp : isZero (some a.allocatedPh) = true
+        · right; right; exact ⟨rfl, hc.1, hc.2, Or.inr ⟨hF, hzp, by simp [hF, hzp]⟩⟩
+        · left; simp [hF, hzp]
+      · right; right; exact ⟨rfl, hc.1, hc.2, Or.inl ⟨hF, by simp [hF]⟩⟩
     · left; rfl
 
 /-- what the state after a release (termination type UNKNOWN) says about the state before -/
@@ -118,7 +135,7 @@ theorem relAppT_state_facts (key : String) (i : CItem) (a : CApp) :
   · rw [hph] at eA eH
     simp only [if_true] at eA eH
     rw [eA, eH]
-    rcases h with ⟨hF, h⟩ | ⟨hR, h⟩ | ⟨hc, h⟩
+    rcases h with ⟨hF, _, h⟩ | ⟨hR, h⟩ | ⟨hc, h⟩
     · rw [hF] at h
       have : fireState "Failing" .fail = "Failed" := by decide
       rw [this] at h
@@ -141,19 +158,68 @@ theorem relAppT_state_facts (key : String) (i : CItem) (a : CApp) :
       · rw [hf]; exact ⟨Or.inl, Or.inl, Or.inl⟩
   · rw [hph] at eA eH
     simp only [Bool.false_eq_true, if_false] at eA eH
-    rw [eA, eH, h]
-    rcases fire_complete a.state with ⟨hf, hs⟩ | ⟨hf, hs⟩ | hf
-    · rw [hf]
-      exact ⟨fun _ => Or.inr ⟨hz, hp⟩, fun e => absurd e (by decide), fun e => absurd e (by decide)⟩
-    · rw [hf]
-      exact ⟨fun _ => Or.inl hs, fun _ => Or.inr (Or.inr ⟨hph, hs⟩), fun _ => Or.inr hs⟩
-    · rw [hf]; exact ⟨Or.inl, Or.inl, Or.inl⟩
+    rw [eA, eH]
+    rcases h with ⟨_, h⟩ | ⟨hF, hzp, h⟩
+    · rw [h]
+      rcases fire_complete a.state with ⟨hf, hs⟩ | ⟨hf, hs⟩ | hf
+      · rw [hf]
+        exact ⟨fun _ => Or.inr ⟨hz, hp⟩, fun e => absurd e (by decide), fun e => absurd e (by decide)⟩
+      · rw [hf]
+        exact ⟨fun _ => Or.inl hs, fun _ => Or.inr (Or.inr ⟨hph, hs⟩), fun _ => Or.inr hs⟩
+      · rw [hf]; exact ⟨Or.inl, Or.inl, Or.inl⟩
+    · -- the last real allocation of a Failing application without placeholders: Failed, the placeholder total is zero
+      rw [hF] at h
+      have : fireState "Failing" .fail = "Failed" := by decide
+      rw [this] at h
+      rw [h]
+      exact ⟨fun e => absurd e (by decide), fun _ => Or.inr (Or.inl hzp), fun e => absurd e (by decide)⟩
+
+/-! ### a Failing application (fix 81c5cb7): Failed only when neither placeholders nor real allocations are left -/
+
+/-- a placeholder of a Failing application that still holds a real allocation goes: it stays Failing and live -/
+theorem relAppT_failing_ph_stays (tt : TermType) (key : String) (i : CItem) (a : CApp) (hph : i.ph = true)
+    (hF : a.state = "Failing") (hreal : isZero (some a.allocated) = false) :
+    (relAppT tt key i a).state = "Failing" ∧ (relAppT tt key i a).live = true := by
+  have hd : terminated "Failing" = false := by decide
+  unfold relAppT
+  simp [hph, hF, hreal, setState_state, hd]
+
+/-- the last placeholder of a Failing application without real allocations goes: Failed and not live -/
+theorem relAppT_failing_ph_failed (tt : TermType) (key : String) (i : CItem) (a : CApp) (hph : i.ph = true)
+    (hF : a.state = "Failing") (hz : isZero (some (prune (subX a.allocatedPh i.res))) = true)
+    (hreal : isZero (some a.allocated) = true) :
+    (relAppT tt key i a).state = "Failed" ∧ (relAppT tt key i a).live = false := by
+  have hf : fireState "Failing" .fail = "Failed" := by decide
+  have hd : terminated "Failed" = true := by decide
+  unfold relAppT
+  simp [hph, hF, hz, hreal, setState_state, hf, hd]
+
+/-- a real allocation of a Failing application that still holds placeholders goes: it stays Failing and live -/
+theorem relAppT_failing_real_stays (tt : TermType) (key : String) (i : CItem) (a : CApp) (hph : i.ph = false)
+    (hF : a.state = "Failing") (hphs : isZero (some a.allocatedPh) = false) :
+    (relAppT tt key i a).state = "Failing" ∧ (relAppT tt key i a).live = true := by
+  have hd : terminated "Failing" = false := by decide
+  unfold relAppT
+  simp only [hph, Bool.false_eq_true, if_false, hF, hphs, beq_self_eq_true, if_true, ite_self, setState_state, hd,
+    Bool.not_false, and_self]
+
+/-- the last real allocation of a Failing application without placeholders and without pending asks goes: Failed and
+    not live -/
+theorem relAppT_failing_real_failed (tt : TermType) (key : String) (i : CItem) (a : CApp) (hph : i.ph = false)
+    (hF : a.state = "Failing") (hp : isZero (some a.pending) = true)
+    (hz : isZero (some (prune (subX a.allocated i.res))) = true) (hphs : isZero (some a.allocatedPh) = true) :
+    (relAppT tt key i a).state = "Failed" ∧ (relAppT tt key i a).live = false := by
+  have hf : fireState "Failing" .fail = "Failed" := by decide
+  have hd : terminated "Failed" = true := by decide
+  unfold relAppT
+  simp [hph, hF, hp, hz, hphs, setState_state, hf, hd]
 
 /-! ### the state after `replApp` -/
 
 /-- the state after the placeholder left (first half of `replApp`) -/
 def replSt1 (p : CItem) (a : CApp) : String :=
-  if (isZero (some (prune (subX a.allocatedPh p.res))) && (a.state == "Failing" || a.state == "Resuming")) = true then
+  if (isZero (some (prune (subX a.allocatedPh p.res))) &&
+      ((a.state == "Failing" && isZero (some a.allocated)) || a.state == "Resuming")) = true then
     (if (a.state == "Failing") = true then fireState a.state .fail else fireState a.state .run)
   else a.state
 
@@ -182,7 +248,7 @@ theorem replSt1_completed (p : CItem) (a : CApp) (h : replSt1 p a = "Completed")
       exact absurd h (by decide)
     · rename_i hF
       rcases hc.2 with hc | hc
-      · exact hF (by simp [hc])
+      · exact hF (by simp [hc.1])
       · rw [hc] at h; exact absurd h (by decide)
   · exact h
 
